@@ -532,8 +532,10 @@ def work(task):
         acc.axis("initial_kind", classify(spec, init)[0])
         for key, desc, hist in res.violations:
             acc.violation(key, desc, {"ctx": spec, "init": {"label": label, "value": init}, "history": hist})
-        if res.samples and label in ("hash:sha256_crypt", "none", "bare_bang"):
-            acc.sample({"ctx": spec["name"], "init": init, "history": res.samples[0]})
+        if label in ("hash:sha256_crypt", "none") and spec["name"] in ("unix_disabled@2", "django_disabled@0", "mysql41+unix_disabled"):
+            # a deepest explored history of this root when one exists, else a short one that certainly was explored
+            hist = res.samples[0] if res.samples else ([["disable", 0], ["enable"]] if init is not None else [["disable_none", 0], ["verify", "x"]])
+            acc.sample({"ctx": spec, "init": {"label": label, "value": init}, "history": hist})
     return acc
 
 
